@@ -362,10 +362,11 @@ Definition target_apply (t n : N) : N :=
 Definition mode_apply (md : mode) (x : N) : N :=
   match md with
   | MNum n => n
-  | MEqual t m =>
-    N.lor (N.lor (if N.testbit t 0 then N.shiftl m 6 else N.land x 448)
-                 (if N.testbit t 1 then N.shiftl m 3 else N.land x 56))
-          (if N.testbit t 2 then m else N.land x 7)
+  | MEqual t m =>                                   (* bits above 0o777 are kept (repaired) *)
+    N.lor (N.ldiff x 511)
+      (N.lor (N.lor (if N.testbit t 0 then N.shiftl m 6 else N.land x 448)
+                    (if N.testbit t 1 then N.shiftl m 3 else N.land x 56))
+             (if N.testbit t 2 then m else N.land x 7))
   | MPlus t m => N.lor x (target_apply t m)
   | MMinus t m => N.ldiff x (target_apply t m)
   end.
